@@ -1590,7 +1590,21 @@ def _read_buffers(
                     from ..path.entities import Line
 
                     kwargs["vertices"] = access[attr["POSITION"]]
-                    kwargs["entities"] = [Line(points=np.arange(len(kwargs["vertices"])))]
+                    # GL_LINES are independent segments: every two vertices
+                    # are one segment and nothing joins them to the next
+                    pairs = np.arange(len(kwargs["vertices"]) // 2 * 2).reshape((-1, 2))
+                    if len(pairs) == 0:
+                        kwargs["entities"] = []
+                    else:
+                        # a segment which starts where the previous
+                        # one ended continues the same polyline
+                        ends = kwargs["vertices"][pairs[:-1, 1]]
+                        starts = kwargs["vertices"][pairs[1:, 0]]
+                        breaks = np.nonzero((ends != starts).any(axis=1))[0] + 1
+                        kwargs["entities"] = [
+                            Line(points=np.append(chunk[:, 0], chunk[-1, 1]))
+                            for chunk in np.split(pairs, breaks)
+                        ]
 
                     # custom attributes starting with a `_`
                     custom = {
